@@ -108,6 +108,12 @@ class TextfileRun(Contract):
                    'file.read() returns exactly the text appended since the previous read (text mode, append-only writer)',
                    'only one _run is active at a time (C18), so the awaits inside _run are not interference points for self.buffer')
 
+    binary = False      # True: the source opened the file itself (bytes, decoded incrementally); False: a text file object was handed in
+
+    def __init__(self):
+        Contract.__init__(self)
+        self.name = 'from_textfile._run[%s]' % ('file opened by name: bytes decoded incrementally' if self.binary else 'text file object')
+
     def build(self, I):
         st = State()
         I.st = st
@@ -121,6 +127,7 @@ class TextfileRun(Contract):
         g['line'] = VString(line)
         selfv = st.new_obj('from_textfile', {'buffer': VString(buf), 'delimiter': VString(d),
                                              'file': VRef(z3.Const('file', sym.Obj), 'File'),
+                                             '_decoder': VRef(z3.Const('decoder', sym.Obj), 'Decoder'),
                                              'poll_interval': VReal(z3.Real('poll'))})
         self.pre_args = {'self': selfv}
         self.pre_state = st.snapshot()
@@ -131,10 +138,28 @@ class TextfileRun(Contract):
         return selfv, [], {}
 
     def globals(self):
-        return {'asyncio': VBuiltin('asyncio')}
+        return {'asyncio': VBuiltin('asyncio'), 'bytes': sym.VClass('bytes')}
 
     def summaries(self):
+        outer = self
+
         def read(I, recv, args, kwargs):
+            if outer.binary:
+                # the bytes appended since the previous read: an opaque object; only the incremental decoder turns it into text
+                b = VBuiltin('bytes_read')
+                I.st.ghost['bytes_read'] = b
+                return b
+            return I.st.ghost['line']
+
+        def decode(I, recv, args, kwargs):
+            # TRUSTED contract of codecs' incremental decoders: fed the bytes of every read, in order and exactly once, the
+            # pieces returned concatenate to the decoding of the bytes read so far (minus an incomplete trailing character, which
+            # is kept inside the decoder).  `line` is the piece of this poll.
+            I.oblige('C17.the_decoder_is_fed_exactly_the_bytes_just_read',
+                     z3.BoolVal(len(args) == 1 and not kwargs and args[0] is I.st.ghost.get('bytes_read') and not I.st.ghost.get('decoded')),
+                     kind='callsite')
+            I.st.obligations[-1].props = ['C17']
+            I.st.ghost['decoded'] = True
             return I.st.ghost['line']
 
         def emit(I, recv, args, kwargs):
@@ -160,9 +185,14 @@ class TextfileRun(Contract):
             I.st.assume(z3.Concat(s, d) == joind(d, parts))
             I.st.assume(cut_ok(d, parts))
             return I.st.new_list(parts, K_STRING)
-        return {'File.read': read, 'Stream._emit': emit, 'str.split': split}
+        return {'File.read': read, 'Decoder.decode': decode, 'Stream._emit': emit, 'str.split': split}
 
     def spec_funcs(self):
+        def isinstance_hook(I, v, n):
+            if n == 'bytes':
+                return isinstance(v, VBuiltin) and v.name == 'bytes_read'
+            raise Unsupported('isinstance(..., %s)' % n)
+
         def gather(I, args, kwargs, fr):
             a = VAw(z3.Const(sym.fresh_name('gather'), sym.Aw))
             last = I.st.ghost.get('last_emit_term')
@@ -200,7 +230,7 @@ class TextfileRun(Contract):
         def implies_(I, a, b):
             return VBool(z3.Implies(I.truth(a), I.truth(b)))
         return {'builtin_asyncio.gather': gather, 'builtin_asyncio.sleep': sleep, 'yield': yield_, 'cat': cat_,
-                'with_delim': with_delim_, 'rec_ok': rec_ok_, 'implies': implies_}
+                'with_delim': with_delim_, 'rec_ok': rec_ok_, 'implies': implies_, 'isinstance': isinstance_hook}
 
     def loop_specs(self):
         return {('from_textfile._run', 0): LoopSpec(
@@ -226,7 +256,19 @@ class TextfileRun(Contract):
         ]
 
 
-ALL = [TextLemmas, TextfileRun]
+class TextfileRunBytes(TextfileRun):
+    binary = True
+    assumptions = TextfileRun.assumptions + (
+        'codecs incremental decoder (trusted; exercised by the bounded byte-level enumeration on a real file): fed the bytes of '
+        'every read in order, the returned pieces concatenate to the decoded text, an incomplete trailing character is kept back',)
+
+    def clauses(self):
+        return TextfileRun.clauses(self) + [
+            Clause('C17.bytes_read_are_decoded_before_use', ['C17'], when='return', fn=lambda self_, I, o, fr: z3.BoolVal(bool(o.state.ghost.get('decoded'))),
+                   note='what is read from a file opened by name is bytes: it goes through the incremental decoder, once')]
+
+
+ALL = [TextLemmas, TextfileRun, TextfileRunBytes]
 
 
 # --------------------------------------------------------------------------- filenames._run
